@@ -67,14 +67,14 @@ class RS:
     def read(self, n, path):
         if n < 0:
             raise Reject("StreamError", "negative length", path)
-        if self.log is not None:
-            self.log.append((self.base + self.pos, n, path))
         avail = len(self.data) - self.pos
         if avail < 0:
             avail = 0
         if n > avail:
             self.pos = max(self.pos, len(self.data))
             raise Reject("StreamError", "short read", path)
+        if self.log is not None:
+            self.log.append((self.base + self.pos, n, path))    # successful reads only
         d = self.data[self.pos:self.pos + n]
         self.pos += n
         return d
